@@ -208,6 +208,11 @@ func c09(r *hx.Run, onlyCrash bool) {
 			x := hx.RandBytes(rng, extra)
 			parseCase(r, fmt.Sprintf("@r:%d:a%x", b.id, x), append(append([]byte{}, b.raw...), x...), onlyCrash, "trailing")
 		}
+		// trailing bytes that are or end in zero bytes (zero fill of an oversized buffer, a C string terminator, a trailer
+		// ending in a zero word) are bytes like any other
+		for _, x := range [][]byte{{0}, {0, 0}, make([]byte, 64), append(hx.RandBytes(rng, 5), 0), append([]byte{0}, hx.RandBytes(rng, 4)...), append(hx.RandBytes(rng, 3), 0, 0, 0, 0)} {
+			parseCase(r, fmt.Sprintf("@r:%d:a%x", b.id, x), append(append([]byte{}, b.raw...), x...), onlyCrash, "trailing-zeros")
+		}
 		// consistent growth of signedDataSize into the extra bytes (must be rejected by the nested sizes)
 		if len(b.raw) > 636 {
 			n := binary.LittleEndian.Uint32(b.raw[632:])
